@@ -108,6 +108,9 @@ class SSet(PyObj):
     def fingerprint_(self):
         return ('set', self.version), []
 
+    def tolist_(self, ctx):
+        return self
+
     def len_(self, ctx):
         return SetCard(self)
 
